@@ -439,6 +439,10 @@ def draw_reject(rng, h_slot, kind, reg, methods, inplace, field_unmapped_axes=No
             ("complex reference element", [a, b], {"reference_point": [{"complex": [0.0, 1.0]}] * nd}),
             ("str reference element", [a, b], {"reference_point": ["abc"] * nd}),
         ]
+        if rng.random() < 0.35:
+            # the same malformed call as a whole number of turns: still malformed
+            kk = rng.choice([0, 4, -4, 8])
+            cat = [(why, args, dict(kw, k=kk)) for why, args, kw in cat if "k" not in kw]
         if field_unmapped_axes:
             a, b = field_unmapped_axes
             why, args, kwargs = "vector field lacks mapping", [a, b], {"k": rng.choice([1, 2, -1, 3])}
